@@ -34,7 +34,7 @@ End LexprInd.
 Lemma fn_beq_eq a b : fn_beq a b = true <-> a = b.
 Proof.
   unfold fn_beq. rewrite !andb_true_iff, !Nat.eqb_eq, String.eqb_eq, Bool.eqb_true_iff. split.
-  - intros [[[H1 H2] H3] H4]. destruct a, b; simpl in *; congruence.
+  - intros [[[[H1 H0] H2] H3] H4]. destruct a, b; simpl in *; congruence.
   - intros ->. auto.
 Qed.
 
@@ -43,6 +43,13 @@ Proof. now apply fn_beq_eq. Qed.
 
 Lemma fn_eqb_refl a : fn_eqb a a = true.
 Proof. unfold fn_eqb. apply Nat.eqb_refl. Qed.
+
+(* the only three facts about == on functions that the proofs below use *)
+Lemma fn_eqb_sym a b : fn_eqb a b = fn_eqb b a.
+Proof. unfold fn_eqb. apply Nat.eqb_sym. Qed.
+
+Lemma fn_eqb_id a b : fn_eqb a b = true -> f_id a = f_id b.
+Proof. unfold fn_eqb. apply Nat.eqb_eq. Qed.
 
 (* sympy's structural == on the modelled trees is Leibniz equality *)
 Lemma lexpr_eqb_eq : forall a b, lexpr_eqb a b = true <-> a = b.
@@ -239,6 +246,26 @@ Corollary classify_refuses e ic : (forall a, ~ admitted e ic a) -> exists err, c
 Proof.
   intros H. destruct (classify e ic) as [a|err] eqn:E; [|eauto].
   exfalso. apply (H a). now apply classify_complete.
+Qed.
+
+(* the arm `raise NotImplementedError('Indexed case')` is dead code *)
+Lemma indexed_order1_unreachable e ic : snd (classify_tag e ic) <> "order1/indexed".
+Proof.
+  unfold classify_tag.
+  destruct (atoms_sfun e ++ match atoms_idx e with [] => atoms_vfun e | _ :: _ => atoms_idx e end)
+    as [|u [|u' r]]; simpl; try discriminate.
+  destruct (atoms_trace e); simpl; try discriminate.
+  destruct (atoms_normal e) as [|n [|n' nr]]; simpl; try discriminate.
+  - destruct (lexpr_eqb e (u_expr u)); simpl.
+    + destruct u as [f|f i]; simpl; try discriminate.
+      destruct (f_vec f); simpl; discriminate.
+    + discriminate.
+  - destruct u as [f|f i]; simpl; try discriminate.
+    destruct (f_vec f); simpl.
+    + destruct (lexpr_eqb e (EFun f) || (lexpr_eqb e (mk_dot (EFun f) (ENormal n)) || false)); simpl; try discriminate.
+      destruct (lexpr_eqb e (mk_dot (EGrad (EFun f)) (ENormal n)) || false); discriminate.
+    + destruct (lexpr_eqb e (EFun f) || false); simpl; try discriminate.
+      destruct (lexpr_eqb e (mk_dot (EGrad (EFun f)) (ENormal n)) || false); discriminate.
 Qed.
 
 (* order, variable and normal flag do not depend on the index_component argument; the
@@ -468,7 +495,7 @@ Proof.
   intros Hm. destruct (fn_eqb t v) eqn:E.
   - repeat split; [lia|exists t; auto|intros k t' Hk; lia].
   - assert (Hm' : mem_fn v r = true).
-    { unfold fn_eqb in *. rewrite Nat.eqb_sym in E. rewrite E in Hm. exact Hm. }
+    { rewrite fn_eqb_sym in E. rewrite E in Hm. exact Hm. }
     destruct (IH Hm') as (L & [t' [N T]] & F). repeat split; [lia|exists t'; auto|].
     intros [|k] t'' Hk Hn; simpl in Hn; [inversion Hn; subst; auto|]. apply (F k); auto. lia.
 Qed.
@@ -481,7 +508,7 @@ Proof.
   - inversion Hk; subst. now rewrite fn_eqb_refl.
   - inversion Hnd as [|? ? Hnot Hnd']; subst.
     destruct (fn_eqb t v) eqn:E.
-    + exfalso. apply Hnot. unfold fn_eqb in E. apply Nat.eqb_eq in E. rewrite E.
+    + exfalso. apply Hnot. apply fn_eqb_id in E. rewrite E.
       apply in_map. eapply nth_error_In; eauto.
     + f_equal. now apply IH.
 Qed.
@@ -816,8 +843,8 @@ Qed.
 (* without that proviso it does: the single-face condition below is shared by two
    equations whose trial functions are listed in different orders; after the second
    call the first equation reads position 1 where it had 0 *)
-Definition hz_u := mkFn 0 "u" false 2.
-Definition hz_p := mkFn 1 "p" true 2.
+Definition hz_u := mkFn 0 0 "u" false 2.
+Definition hz_p := mkFn 1 1 "p" true 2.
 Definition hz_face := mkFace 0 "A_\Gamma_1" "A" 0%Z (-1)%Z.
 Definition hz_store : store := [obj (essential_new (EFun hz_u) "0" (BFace hz_face) None None)].
 
